@@ -98,9 +98,9 @@ Proof.
   all: try (intros; discriminate).
 Qed.
 
-Lemma done_no_step : forall i sh gh p, prod_done p = true -> prod_step i sh gh p = None.
+Lemma done_no_step : forall b i sh gh p, prod_done p = true -> prod_step b i sh gh p = None.
 Proof.
-  intros i sh gh p H. unfold prod_done in H. unfold prod_step.
+  intros b i sh gh p H. unfold prod_done in H. unfold prod_step.
   destruct (p_pc p); try discriminate. destruct (p_prog p); [reflexivity|discriminate].
 Qed.
 
@@ -221,11 +221,11 @@ Ltac fin_prod :=
   end.
 
 Lemma prod_inv1 : forall s i p sh gh p' l, Inv1 s -> nth_error (c_prods s) i = Some p ->
-  prod_step i (c_sh s) (c_gh s) p = Some (sh, gh, p', l) -> Inv1 (with_prod s sh gh i p').
+  prod_step true i (c_sh s) (c_gh s) p = Some (sh, gh, p', l) -> Inv1 (with_prod s sh gh i p').
 Proof.
   intros s i p sh gh p' l I Hn H.
   assert (ND : prod_done p = false).
-  { destruct (prod_done p) eqn:E; [|reflexivity]. rewrite (done_no_step _ _ _ _ E) in H. discriminate. }
+  { destruct (prod_done p) eqn:E; [|reflexivity]. rewrite (done_no_step _ _ _ _ _ E) in H. discriminate. }
   assert (NSt : in_stop (c_m s) || stopped (c_gh s) = false).
   { destruct (in_stop (c_m s) || stopped (c_gh s)) eqn:E; [|reflexivity].
     rewrite (i_done s I E i p Hn) in ND. discriminate. }
@@ -248,7 +248,7 @@ Proof.
   - (* PIdle *)
     destruct (p_prog p) as [|len rest] eqn:PR; [discriminate|].
     assert (F0 : fpost p = 0 /\ fsec p = 0) by (unfold fpost, fsec; rewrite PC; auto). destruct F0 as [F1 F2].
-    destruct (inlog (c_sh s)); [|destruct (en (c_sh s))]; injection H as <- <- <- <-; fin_prod.
+    cbn [negb andb] in H; destruct (en (c_sh s)); injection H as <- <- <- <-; fin_prod.
   - (* PLock *)
     destruct (lock_free (c_sh s)) eqn:L; [|discriminate].
     destruct (mutex_free_wsec s I L) as (M1 & M2 & M3).
@@ -396,7 +396,7 @@ Proof.
   - destruct (worker_step true (c_sh s) (c_gh s) (c_w s)) as [[[[sh gh] w] l]|] eqn:E; [|exact I].
     exact (worker_inv1 s sh gh w l I E).
   - destruct (nth_error (c_prods s) i) as [p|] eqn:Hn; [|exact I].
-    destruct (prod_step i (c_sh s) (c_gh s) p) as [[[[sh gh] p'] l]|] eqn:E; [|exact I].
+    destruct (prod_step true i (c_sh s) (c_gh s) p) as [[[[sh gh] p'] l]|] eqn:E; [|exact I].
     exact (prod_inv1 s i p sh gh p' l I Hn E).
 Qed.
 
